@@ -1,0 +1,13 @@
+//go:build !verif
+
+// Package verifhook provides passive instrumentation points for external
+// verification tooling. Without the "verif" build tag every function is an
+// empty function that the compiler removes.
+package verifhook
+
+// Point marks a named place in the code. No-op without the verif build tag.
+func Point(name string) {}
+
+// Access marks a read (write=false) or write (write=true) of a named piece of
+// shared state belonging to obj. No-op without the verif build tag.
+func Access(obj interface{}, field string, write bool) {}
